@@ -134,7 +134,7 @@ fn replay_one(toks: &[&str]) -> String {
             common::rm_rf(&scratch);
             r
         }
-        "C18" | "C18L" => c18::observe(toks[0], &toks[1..]),
+        "C18" | "C18L" | "C18F" => c18::observe(toks[0], &toks[1..]),
         "C20" => {
             if toks[1] == "K" {
                 let types = if toks[2] == "-" { "" } else { toks[2] };
